@@ -100,7 +100,7 @@ func New(height int64) *Env {
 	reg := consensuskeeper.NewRegistry()
 	cons := consensuskeeper.NewKeeper(cdc, runtime.NewKVStoreService(storetypes.NewKVStoreKey(consensustypes.StoreKey)), models.Subspace(cdc, consensustypes.ModuleName), valset, reg, treasury)
 	cons.AddMessageConsensusAttestedListener(&metrix)
-	evm := evmkeeper.NewKeeper(cdc, runtime.NewKVStoreService(storetypes.NewKVStoreKey(evmtypes.StoreKey)), "authority", cons, valset, valCodec, metrix, treasury)
+	evm := evmkeeper.NewKeeper(cdc, runtime.NewKVStoreService(storetypes.NewKVStoreKey(evmtypes.StoreKey)), Authority, cons, valset, valCodec, metrix, treasury)
 	valset.SnapshotListeners = []valsettypes.OnSnapshotBuiltListener{evm, &metrix}
 	valset.EvmKeeper = evm
 	evm.AddMessageConsensusAttestedListener(&metrix)
@@ -113,6 +113,9 @@ func New(height int64) *Env {
 }
 
 // AddChain registers and activates an EVM chain (the governance path).
+// Authority is the governance account the keepers are wired with.
+var Authority = sdk.AccAddress("gov-module-account--").String()
+
 func (e *Env) AddChain(chain string, chainID uint64) {
 	err := e.Evm.AddSupportForNewChain(e.Ctx, chain, chainID, 100, "0xblockhash", sdkmath.NewInt(1).BigInt())
 	if err != nil {
